@@ -22,7 +22,8 @@ pub mod fault {
 
     #[derive(Default)]
     struct State {
-        /// operators in the order their tasks were spawned (post-order of the plan): name, items seen
+        /// operators in the order their tasks were spawned (post-order of the plan): name, items
+        /// seen
         ops: Vec<(String, usize)>,
         /// (operator index, item index, panic?)
         armed: Option<(usize, usize, bool)>,
@@ -74,5 +75,85 @@ pub mod fault {
             }
             _ => None,
         }
+    }
+}
+
+/// Schedule points: named places in background tasks where a test scheduler can hold the task.
+/// With no gate installed a point returns immediately.
+pub mod sched {
+    use std::sync::Mutex;
+
+    use tokio::sync::oneshot;
+
+    #[derive(Default)]
+    struct Gate {
+        /// only points whose name starts with one of these prefixes are held
+        prefixes: Vec<String>,
+        next_id: u64,
+        parked: Vec<(u64, String, oneshot::Sender<()>)>,
+        /// every arrival at a gated point, in order (for the schedule log)
+        arrivals: Vec<String>,
+    }
+
+    static GATE: Mutex<Option<Gate>> = Mutex::new(None);
+
+    /// Install a gate for the points with the given name prefixes.
+    pub fn enable(prefixes: Vec<String>) {
+        *GATE.lock().unwrap() = Some(Gate {
+            prefixes,
+            ..Default::default()
+        });
+    }
+
+    /// Remove the gate and let every held task go. Returns the arrival log.
+    pub fn disable() -> Vec<String> {
+        match GATE.lock().unwrap().take() {
+            Some(g) => {
+                for (_, _, tx) in g.parked {
+                    let _ = tx.send(());
+                }
+                g.arrivals
+            }
+            None => vec![],
+        }
+    }
+
+    /// The tasks currently held: (id, point name).
+    pub fn parked() -> Vec<(u64, String)> {
+        match GATE.lock().unwrap().as_ref() {
+            Some(g) => g.parked.iter().map(|(i, n, _)| (*i, n.clone())).collect(),
+            None => vec![],
+        }
+    }
+
+    /// Let the first held task whose point name starts with `prefix` go.
+    pub fn release(prefix: &str) -> Option<String> {
+        let mut guard = GATE.lock().unwrap();
+        let g = guard.as_mut()?;
+        let pos = g
+            .parked
+            .iter()
+            .position(|(_, n, _)| n.starts_with(prefix))?;
+        let (_, name, tx) = g.parked.remove(pos);
+        let _ = tx.send(());
+        Some(name)
+    }
+
+    /// A schedule point.
+    pub async fn point(name: String) {
+        let rx = {
+            let mut guard = GATE.lock().unwrap();
+            let Some(g) = guard.as_mut() else { return };
+            if !g.prefixes.iter().any(|p| name.starts_with(p.as_str())) {
+                return;
+            }
+            let (tx, rx) = oneshot::channel();
+            g.next_id += 1;
+            let id = g.next_id;
+            g.arrivals.push(name.clone());
+            g.parked.push((id, name, tx));
+            rx
+        };
+        let _ = rx.await;
     }
 }
